@@ -74,7 +74,7 @@ const (
 
 type inliner struct {
 	p         *Prog
-	protected map[*types.Func]bool
+	protected map[string]bool // FullName of anchor functions
 	src       map[string][]byte
 	sites     map[ast.Stmt]*inlSite
 	list      []*inlSite
@@ -725,38 +725,68 @@ func (in *inliner) emitSite0(s *inlSite) (rope, bool) {
 	// stores and calls of the body, for substituting selector-path arguments
 	storedFields := map[types.Object]bool{}
 	callsQuiet := true
-	ast.Inspect(body, func(m ast.Node) bool {
-		switch t := m.(type) {
-		case *ast.AssignStmt:
-			for _, l := range t.Lhs {
-				if sel, ok := ast.Unparen(l).(*ast.SelectorExpr); ok {
+	// function-typed parameters bound to literal arguments: their bodies run inside the callee
+	litArg := map[types.Object]*ast.FuncLit{}
+	{
+		k := 0
+		if ft.Params != nil {
+			for _, f := range ft.Params.List {
+				names := f.Names
+				if len(names) == 0 {
+					k++
+					continue
+				}
+				for _, n := range names {
+					if k < len(s.call.Args) {
+						if fl, ok := ast.Unparen(s.call.Args[k]).(*ast.FuncLit); ok && info.Defs[n] != nil {
+							litArg[info.Defs[n]] = fl
+						}
+					}
+					k++
+				}
+			}
+		}
+	}
+	var scanEffects func(n ast.Node, depth int)
+	scanEffects = func(n ast.Node, depth int) {
+		ast.Inspect(n, func(m ast.Node) bool {
+			switch t := m.(type) {
+			case *ast.AssignStmt:
+				for _, l := range t.Lhs {
+					if sel, ok := ast.Unparen(l).(*ast.SelectorExpr); ok {
+						storedFields[info.Uses[sel.Sel]] = true
+					}
+				}
+			case *ast.IncDecStmt:
+				if sel, ok := ast.Unparen(t.X).(*ast.SelectorExpr); ok {
 					storedFields[info.Uses[sel.Sel]] = true
 				}
-			}
-		case *ast.IncDecStmt:
-			if sel, ok := ast.Unparen(t.X).(*ast.SelectorExpr); ok {
-				storedFields[info.Uses[sel.Sel]] = true
-			}
-		case *ast.CallExpr:
-			if id, isId := ast.Unparen(t.Fun).(*ast.Ident); isId {
-				if _, b := info.Uses[id].(*types.Builtin); b {
+			case *ast.CallExpr:
+				if id, isId := ast.Unparen(t.Fun).(*ast.Ident); isId {
+					if _, b := info.Uses[id].(*types.Builtin); b {
+						return true
+					}
+					if fl := litArg[info.Uses[id]]; fl != nil && depth < 2 {
+						scanEffects(fl.Body, depth+1)
+						return true
+					}
+				}
+				if info.Types[t.Fun].IsType() {
 					return true
 				}
+				switch lastSeg(calleeName(info, t)) {
+				case "Info", "Error", "V", "WithValues", "WithName", "Infof", "Errorf", "Sprintf", "String", "Debugf", "Warnf", "Is", "As", "Inc", "Dec", "WithLabelValues":
+					return true
+				}
+				if fi := in.p.FuncOf(Callee(info, t)); fi != nil && fi.Decl.Recv != nil && in.p.pureMethod(fi, 0) {
+					return true
+				}
+				callsQuiet = false
 			}
-			if info.Types[t.Fun].IsType() {
-				return true
-			}
-			switch calleeName(info, t) {
-			case "Info", "Error", "V", "WithValues", "WithName", "Infof", "Errorf", "Sprintf", "String", "Debugf", "Warnf", "Is", "As", "Inc", "Dec", "WithLabelValues":
-				return true
-			}
-			if fi := in.p.FuncOf(Callee(info, t)); fi != nil && fi.Decl.Recv != nil && in.p.pureMethod(fi, 0) {
-				return true
-			}
-			callsQuiet = false
-		}
-		return true
-	})
+			return true
+		})
+	}
+	scanEffects(body, 0)
 	// canSubst: the parameter can be replaced textually by the argument
 	canSubst := func(param *ast.Ident, ptype types.Type, arg ast.Expr) bool {
 		if param == nil || param.Name == "_" {
@@ -1153,6 +1183,17 @@ func (in *inliner) findSites() {
 						}
 					}
 				}
+			case *ast.ValueSpec:
+				for i, nm := range t.Names {
+					if v, ok := info.Defs[nm].(*types.Var); ok {
+						assigned[v]++
+						if i < len(t.Values) {
+							if fl, ok := t.Values[i].(*ast.FuncLit); ok {
+								closures[v] = fl
+							}
+						}
+					}
+				}
 			case *ast.UnaryExpr:
 				if t.Op == token.AND {
 					if id, ok := t.X.(*ast.Ident); ok {
@@ -1228,7 +1269,7 @@ func (in *inliner) findSites() {
 			if s.lit == nil {
 				obj := Callee(info, call)
 				ci := p.FuncOf(obj)
-				if ci == nil || ci.Pkg != fn.Pkg || ci == fn || in.protected[obj] || isExported(ci.Decl.Name.Name) {
+				if ci == nil || ci.Pkg != fn.Pkg || ci == fn || (obj != nil && in.protected[obj.FullName()]) || isExported(ci.Decl.Name.Name) {
 					return
 				}
 				if ci.Decl.Recv != nil {
@@ -1281,7 +1322,7 @@ func (fm *fileMap) lookup(off int) (ovSeg, bool) {
 
 // Normalise builds the expanded program; it returns p itself when nothing applies or the
 // overlay cannot be type-checked.
-func Normalise(p *Prog, o LoadOpts, protected map[*types.Func]bool) (*Prog, []string) {
+func Normalise(p *Prog, o LoadOpts, protected map[string]bool) (*Prog, []string) {
 	in := &inliner{p: p, protected: protected, src: map[string][]byte{}, sites: map[ast.Stmt]*inlSite{},
 		imports: map[*ast.File]map[string]string{}, used: map[int]bool{}, subst: map[types.Object]rope{},
 		infoOf: map[string]*types.Info{}, asgCount: map[*FuncInfo]map[types.Object]int{}}
@@ -1289,9 +1330,13 @@ func Normalise(p *Prog, o LoadOpts, protected map[*types.Func]bool) (*Prog, []st
 		name := in.fname(fn.File.Pos())
 		in.infoOf[name] = fn.Info()
 		if _, ok := in.src[name]; !ok {
-			b, err := os.ReadFile(name)
-			if err != nil {
-				return p, []string{"normalisation skipped: " + err.Error()}
+			b, ok := p.overlay[name]
+			if !ok {
+				var err error
+				b, err = os.ReadFile(name)
+				if err != nil {
+					return p, []string{"normalisation skipped: " + err.Error()}
+				}
 			}
 			in.src[name] = b
 		}
@@ -1399,13 +1444,26 @@ func Normalise(p *Prog, o LoadOpts, protected map[*types.Func]bool) (*Prog, []st
 			}
 		}
 		o2 := o
+		for name, b := range p.overlay {
+			if _, ok := overlay[name]; !ok {
+				overlay[name] = b
+			}
+		}
 		o2.Overlay = overlay
 		p2, err := Load(o2)
 		if err == nil {
-			p2.posMaps = maps
-			p2.origSrc = in.src
+			p2.posLayers = append(append([]map[string]*fileMap{}, p.posLayers...), maps)
+			p2.overlay = overlay
+			if p.origSrc != nil {
+				p2.origSrc = p.origSrc
+			} else {
+				p2.origSrc = in.src
+			}
 			callers := map[*FuncInfo]bool{}
 			callees := map[string]bool{}
+			for k, v := range p.expandedAll {
+				callees[k] = v
+			}
 			for _, s := range in.list {
 				if in.used[s.id] {
 					callers[s.caller] = true
@@ -1417,15 +1475,18 @@ func Normalise(p *Prog, o LoadOpts, protected map[*types.Func]bool) (*Prog, []st
 				}
 			}
 			p2.expandedFns = map[string]bool{}
+			p2.expandedAll = map[string]bool{}
 			for k := range callees {
 				p2.expandedFns[k] = true
+				p2.expandedAll[k] = true
 			}
+			p2.nExpanded = p.nExpanded + nUsed
 			var cs []string
 			for k := range callees {
 				cs = append(cs, k)
 			}
 			sort.Strings(cs)
-			p2.Normalised = fmt.Sprintf("%d helper call sites expanded in %d functions (%d helpers: %s)", nUsed, len(callers), len(cs), strings.Join(cs, ", "))
+			p2.Normalised = fmt.Sprintf("%d helper call sites expanded (this round: %d in %d functions); helpers: %s", p2.nExpanded, nUsed, len(callers), strings.Join(cs, ", "))
 			return p2, append(notes, "normalisation: "+p2.Normalised)
 		}
 		// disable the sites the errors point into
